@@ -1,9 +1,10 @@
 #!/bin/bash
-# usage: tools/confirm_seed.sh <id> <demo command...>
-# Confirms a seeded breakage in its scratch worktree /tmp/seed-<id>: patch applies to a clean
-# HEAD, 107 baseline tests pass with it, the demo fails with it and passes without it.
+# usage: tools/confirm_seed.sh <id|worktree-dir> <demo command...>
+# Confirms a seeded breakage in its scratch worktree (/tmp/seed-<id> or the given directory):
+# patch applies to a clean HEAD, 107 baseline tests pass with it, the demo fails with it and
+# passes without it.
 ID="$1"; shift
-WT=/tmp/seed-$ID
+case "$ID" in /*) WT="$ID"; ID=$(basename "$WT");; *) WT=/tmp/seed-$ID;; esac
 cd $WT || exit 2
 P=$WT/seed_out/patch.diff
 git -C /repo apply --check "$P" || { echo "patch does not apply to /repo HEAD"; exit 2; }
